@@ -34,7 +34,7 @@ Section Meta.
              end) p s (lvA k * s + lvB k) (lvAl k * s + lvBl k).
   Proof.
     intros H8 Hp Hs. destruct (lv_mono 0 k (Nat.le_0_l k)) as (M1 & M2 & M3 & M4).
-    assert (E1 : lvA 0 = 6) by reflexivity. assert (E3 : lvAl 0 = 2) by reflexivity.
+    assert (E1 : lvA 0 = 6) by reflexivity. assert (E3 : 2 <= lvAl 0) by (vm_compute; discriminate).
     assert (HA : 6 * s <= lvA k * s) by (apply N.mul_le_mono_r; lia).
     assert (HAl : 2 * s <= lvAl k * s) by (apply N.mul_le_mono_r; lia).
     assert (E2 : 10 <= lvB 0) by (vm_compute; discriminate).
